@@ -39,7 +39,7 @@ func treePlan(tier string, smallProfile string) []core.Segment {
 		{Gen: "spec", Count: gen.CorpusSize(), Exhaustive: true, Desc: "spec 0.30 examples + repo fuzz seeds + harvested corpus"},
 		{Gen: "specprefix", Count: gen.PrefixCount(), Exhaustive: true, Desc: "every prefix of every corpus document"},
 		{Gen: "lines", Profile: "default", Count: scale(tier, 1_000_000, 16_000_000), Desc: "line-structured documents, inline constructs split across lines inside containers"},
-		{Gen: "limits", Profile: "default", Count: scale(tier, 16_000, 400_000), Desc: "documents on numeric thresholds: 999-character labels, 9-digit list numbers, reference digit counts, scheme and domain lengths, line endings on the 8 KiB read window, indentation columns, long runs, deep nesting"},
+		{Gen: "limits", Profile: "default", Count: scale(tier, 6_000, 150_000), Desc: "documents on numeric thresholds: 999-character labels, 9-digit list numbers, reference digit counts, scheme and domain lengths, line endings on the 8 KiB read window, indentation columns, long runs, deep nesting"},
 		{Gen: "defsplit", Profile: "default", Count: scale(tier, 300_000, 8_000_000), Desc: "definition-like paragraphs cut into lines at every place, inside containers with space/tab/partly consumed tab prefixes and hostile bytes right after the prefix"},
 		{Gen: "inlinex", Profile: "default", Count: scale(tier, 500_000, 12_000_000), Desc: "well-formed inline trees whose delimiter tokens were deleted, duplicated, moved, swapped or respelled: constructs crossing each other's boundaries"},
 		{Gen: "modeldoc", Profile: "full", Count: scale(tier, 150_000, 4_000_000), Desc: "Markdown of model documents: nested containers, structural tabs, laziness, multi-line inline constructs"},
